@@ -548,7 +548,13 @@ class Interp:
         return False
 
     def s_Global(self, node, env):
-        raise Unsupported("global statement")
+        e = env
+        while e is not None and e.func is None:
+            e = e.parent
+        if e is None:
+            return
+        g = e.vars.setdefault("$globals", set())
+        g.update(node.names)
 
     def s_Nonlocal(self, node, env):
         raise Unsupported("nonlocal statement")
@@ -561,6 +567,13 @@ class Interp:
 
     def assign(self, tgt, v, env):
         if isinstance(tgt, ast.Name):
+            e = env
+            while e is not None and e.func is None:
+                e = e.parent
+            if e is not None and tgt.id in e.vars.get("$globals", ()):
+                cur().effects.append(("global-write", env.module.name, tgt.id))
+                env.module.ns[tgt.id] = v
+                return
             env.vars[tgt.id] = v
         elif isinstance(tgt, (ast.Tuple, ast.List)):
             items = self.unpack(v, len(tgt.elts))
@@ -936,6 +949,8 @@ class Interp:
     def getitem(self, obj, idx):
         if hasattr(obj, "pyvc_getitem"):
             return obj.pyvc_getitem(self, idx)
+        if isinstance(obj, LocalObj):
+            return self.call(self.getattr(obj, "__getitem__"), [idx], {})
         if isinstance(obj, Arr):
             if isinstance(idx, slice):
                 return A.getitem_slice(obj, idx.start, idx.stop)
@@ -1176,6 +1191,12 @@ class Interp:
                 return obj.attrs[name]
             v, owner = obj.cls.lookup(name)
             if owner is None:
+                for c in obj.cls.mro:
+                    for eb in getattr(c, "ext_bases", ()):
+                        if hasattr(eb, "pyvc_ext_method"):
+                            m = eb.pyvc_ext_method(self, obj, name)
+                            if m is not None:
+                                return m
                 raise PyRaise(ExcValue("AttributeError", (f"{obj.cls.name} object has no attribute {name}",)))
             return self.bind(v, obj)
         if isinstance(obj, ObjRef):
@@ -1186,6 +1207,12 @@ class Interp:
             for c in mro[i + 1:]:
                 if name in c.ns:
                     return self.bind(c.ns[name], obj.obj)
+            for c in mro[i:]:
+                for eb in getattr(c, "ext_bases", ()):
+                    if hasattr(eb, "pyvc_ext_method"):
+                        m = eb.pyvc_ext_method(self, obj.obj, name)
+                        if m is not None:
+                            return m
             if name == "__init__":
                 return Builtin("object.__init__", lambda it, a, k: None)
             raise PyRaise(ExcValue("AttributeError", (f"super has no attribute {name}",)))
@@ -1365,6 +1392,9 @@ class Interp:
             raise _SymbolicIterationNeeded(v)
         if hasattr(v, "pyvc_iter"):
             return v.pyvc_iter(self)
+        if isinstance(v, LocalObj):
+            r = self.call(self.getattr(v, "__iter__"), [], {})
+            return self.iterate(r)
         if isinstance(v, StarPack):
             raise Unsupported("iteration over an opaque argument pack")
         raise Unsupported(f"iteration over {type(v).__name__}")
@@ -1380,7 +1410,10 @@ class Interp:
         if isinstance(fn, StaticMethod):
             return self.call(fn.func, args, kwargs)
         if isinstance(fn, Builtin):
-            return fn.fn(self, list(args), dict(kwargs))
+            try:
+                return fn.fn(self, list(args), dict(kwargs))
+            except (TypeError, AttributeError, KeyError, ValueError, IndexError) as e:
+                raise Unsupported(f"{fn.name} applied to values outside its model ({type(e).__name__}: {str(e)[:120]})")
         if isinstance(fn, FuncValue):
             return self.call_function(fn, list(args), dict(kwargs))
         if isinstance(fn, ClassValue):
@@ -1389,6 +1422,8 @@ class Interp:
             return ExcValue(fn.name, tuple(args), fn.bases)
         if hasattr(fn, "pyvc_call"):
             return fn.pyvc_call(self, list(args), dict(kwargs))
+        if isinstance(fn, LocalObj):
+            return self.call(self.getattr(fn, "__call__"), args, kwargs)
         if isinstance(fn, _TypingThing):
             return fn
         raise PyRaise(ExcValue("TypeError", (f"{fn!r} is not callable",)))
@@ -1401,6 +1436,12 @@ class Interp:
         init, owner = cls.lookup("__init__")
         if init is not None:
             self.call(BoundMethod(init, obj) if isinstance(init, FuncValue) else init, args, kwargs)
+        else:
+            for c in cls.mro:
+                for eb in getattr(c, "ext_bases", ()):
+                    if hasattr(eb, "pyvc_ext_init"):
+                        eb.pyvc_ext_init(self, obj, list(args), dict(kwargs))
+                        return obj
         return obj
 
     def contract_for(self, fn):
@@ -1429,6 +1470,13 @@ class Interp:
                     self.exec_block(fn.node.body, env)
                 except ReturnEx:
                     pass
+                if env.vars.get("$yield_symbolic"):
+                    items = env.vars["$yield"]
+                    if len(items) != 1:
+                        raise Unsupported("generator with several yield sites inside symbolic loops")
+                    n = T.fresh("n_yielded", T.INT)
+                    c.axiom(T.le(0, n))
+                    return SSeq(n, lambda i, it=items[0]: it, f"generator {fn.name}")
                 return _Iter(env.vars["$yield"])
             try:
                 self.exec_block(fn.node.body, env)
@@ -1543,6 +1591,8 @@ class Interp:
                 return x.n
             if hasattr(x, "pyvc_len"):
                 return x.pyvc_len(it)
+            if isinstance(x, LocalObj):
+                return it.call(it.getattr(x, "__len__"), [], {})
             if isinstance(x, A.SIntList):
                 return x.n
             if isinstance(x, (_DictItems, _DictKeys, _DictValues)):
@@ -1665,6 +1715,10 @@ class Interp:
 
         @reg("zip")
         def _zip(it, a, k):
+            if any(hasattr(x, "deps") for x in a):
+                from .libmodels.nx_graph import AbsColl
+
+                return AbsColl(frozenset().union(*[x.deps for x in a if hasattr(x, "deps")]), "zip")
             return _Iter(list(zip(*[list(it.iterate(x)) for x in a])))
 
         @reg("range")
@@ -1679,6 +1733,10 @@ class Interp:
         @reg("dict")
         def _dict(it, a, k):
             d = {}
+            if a and hasattr(a[0], "deps"):
+                from .libmodels.nx_graph import AbsColl
+
+                return AbsColl(a[0].deps, "dict")
             if a:
                 src = a[0]
                 if isinstance(src, dict):
